@@ -633,6 +633,16 @@ impl Sim for C20 {
         } else {
           row.ctx.clone()
         };
+        // error paths: an input of the wrong kind, no input at all
+        let ctx = if rng.chance(1, 12) {
+          match rng.index(3) {
+            0 => "{}".to_string(),
+            1 => format!("{{x: \"text {}\", s: {}, n: true, t: [{}]}}", unique, unique, unique),
+            _ => format!("{{x: null, s: null, Full Name: {}, Loan: \"none {}\"}}", unique, unique),
+          }
+        } else {
+          ctx
+        };
         calls.push(json!({"model": m, "invocable": row.invocable, "ctx": ctx}));
       }
       tasks.push(Value::Array(calls));
